@@ -435,6 +435,43 @@ def r4(ck):
             ck.ok("C18.R4", key, fn=x.path)
         else:
             ck.bad("C18.R4", key, where(x.raw["sp"]), "%d returning path(s) emit no log record for another reason: with the `log` feature and no collector that step of the span's life is missing from the log" % silent_bad, fn=x.path)
+    # ... at `the corresponding level`: the records that describe the span itself (creation, recorded values) are logged at
+    # the span's own level converted to log's, whichever target they go to; enter / exit / close are TRACE
+    li = Facts("default").adts.get("tracing_core::metadata::LevelInner")
+    names = {i: v["name"] for i, v in enumerate(li["variants"])} if li else {}
+    for x in {x.path: x for x, bb in sites}.values():
+        own_level = x.path.endswith("::make_with") or x.path.endswith("::record_all")
+        bad = set()
+        n = 0
+        for pth in PathEval(x).run():
+            if pth.end != "return":
+                continue
+            for c in pth.calls:
+                if c[1].get("path") != "tracing::span::Span::log" or len(c[2]) < 3:
+                    continue
+                n += 1
+                got = show(c[2][2])
+                if own_level:
+                    d = [cc for cc in pth.conds if show(cc[0]).startswith("discr(level(") and show(cc[0]).endswith(".0)")]
+                    if not d:
+                        bad.add("a record is logged at %s without the span's level having been looked at" % got)
+                        continue
+                    v = d[-1][1]
+                    if v is None:
+                        others = {names.get(a) for a in (d[-1][2] or [])}
+                        cand = [nm for nm in names.values() if nm not in others]
+                        want = cand[0].title() if len(cand) == 1 else None
+                    else:
+                        want = (names.get(v) or "").title()
+                    if want and got != "Level::%s{}" % want:
+                        bad.add("a %s span's record is logged at %s" % (want.upper(), got))
+                elif got != "Level::Trace{}":
+                    bad.add("an enter/exit/close record is logged at %s" % got)
+        key = "%s logs at %s" % (x.path.replace("tracing::span::", ""), "the span's own level" if own_level else "TRACE")
+        if n and not bad and names:
+            ck.ok("C18.R4", key, fn=x.path)
+        else:
+            ck.bad("C18.R4", key, where(x.raw["sp"]), "; ".join(sorted(bad)[:3]) or ("no log call on a returning path" if names else "LevelInner not found in the facts"), fn=x.path)
     sl = L.body("tracing::span::Span::log")
     if ck.anchor("C18.R4", "Span::log", sl):
         per = [sum(1 for c in p.calls if c[1].get("trait") == "log::Log" and c[1].get("method") == "log") for p in PathEval(sl).run() if p.end == "return"]
